@@ -10,6 +10,7 @@ import time
 from . import tlc as _tlc
 
 ROOT = os.path.dirname(os.path.dirname(os.path.dirname(os.path.abspath(__file__))))
+REPO = os.environ.get("VERIF_REPO", "/repo")
 FINDINGS_FILE = os.path.join(ROOT, "known_findings.json")
 
 
@@ -59,8 +60,12 @@ class Ctx:
         self.known_seen = {}       # key -> what
         self._known = {}
         self._fixed = {}
-        if os.path.exists(FINDINGS_FILE):
-            for e in json.load(open(FINDINGS_FILE))["findings"]:
+        files = [FINDINGS_FILE] if os.path.exists(FINDINGS_FILE) else []
+        fd = os.path.join(ROOT, "findings.d")
+        if os.path.isdir(fd):
+            files += sorted(os.path.join(fd, f) for f in os.listdir(fd) if f.endswith(".json"))
+        for fn in files:
+            for e in json.load(open(fn))["findings"]:
                 if e["property"] != pid:
                     continue
                 (self._known if e["status"] == "known" else self._fixed)[e["key"]] = e
